@@ -12,7 +12,6 @@ Streams (all driven against the real `dissect.cobaltstrike.client.HttpBeaconClie
 from __future__ import annotations
 
 import hashlib
-import json
 import logging
 import os
 import random as _random
@@ -66,13 +65,6 @@ logging.disable(logging.CRITICAL)
 REPO = Path(os.environ.get("VERIF_REPO", "/repo"))
 _BEACON = "37882262c9b5e971067fd989b26afe28.bin"
 _bconfig = None
-
-UNKNOWN_CMD_FINDING = "C19-unknown-command-kills-loop"
-try:
-    _kf = json.loads((Path(__file__).resolve().parents[2] / "known_findings.json").read_text())
-    _UNK_ACTIVE = any(f.get("id") == UNKNOWN_CMD_FINDING and f.get("status") == "known" for f in _kf.get("findings", []))
-except Exception:  # noqa: BLE001
-    _UNK_ACTIVE = False
 
 
 def bconfig():
@@ -145,7 +137,7 @@ def rand_name(rng, maxlen=30):
 
 POOL_CMDS = [3, 4, 6, 27, 102, 1]
 UNKNOWN_CMDS = [0, 103, 9999, 4294967295, 200]
-DECOYS = ["on_noop", "on_COMMAND_DIE", "on_die_", "on_", "on_command_die", "on_Die", "on_catchall", "on_none"]
+DECOYS = ["on_unknown_", "on_unknown_3", "on_unknown", "on_noop", "on_COMMAND_DIE", "on_die_", "on_", "on_command_die", "on_Die", "on_catchall", "on_none"]
 
 
 def rand_hcode(rng, hid, want=None):
@@ -209,8 +201,10 @@ def rand_regs(rng, gh=False):
             regs.append(f"c/{hc}")
         else:
             q = rng.random()
-            if q < 0.55:
+            if q < 0.5:
                 nm = on_name(rng.choice(cmds))
+            elif q < 0.6:
+                nm = "on_unknown_" + str(rng.choice(UNKNOWN_CMDS + ([-1, -2] if gh else [])))
             elif q < 0.7:
                 nm = "on_catch_all"
             elif q < 0.8:
@@ -224,12 +218,12 @@ def rand_regs(rng, gh=False):
 def rand_tasks(rng, cmds, gh=False):
     n = rng.randrange(1, 41) if rng.random() < 0.7 else rng.randrange(1, 6)
     out = []
-    bad = rng.random() < (0.3 if gh else 0.1)
+    bad = rng.random() < 0.5
     for _ in range(n):
         r = rng.random()
         if r < 0.12:
             out.append("n")
-        elif bad and r < 0.2:
+        elif bad and r < 0.25:
             out.append(str(rng.choice(UNKNOWN_CMDS + ([-1, -2] if gh else []))))
         elif r < 0.3:
             out.append(str(rng.choice(POOL_CMDS)))
@@ -239,7 +233,7 @@ def rand_tasks(rng, cmds, gh=False):
 
 
 FIXED = [
-    # the two repaired defects (7330121, 3b4d3d6) and the alias / unknown-id corner cases
+    # the repaired defects (7330121, 3b4d3d6, c54c447) and the alias / unknown-id corner cases
     ("loop", "loop F 2 h/i3/35 k/111.110.95.100.105.101/67 t3,3,3,3"),
     ("lspec", "lspec F 2 h/i3/35 k/111.110.95.100.105.101/67 t3,3,3,3"),
     ("loop", "loop F 2 c/35 k/111.110.95.99.97.116.99.104.95.97.108.108/67 t3,4,3,4"),
@@ -249,6 +243,9 @@ FIXED = [
     ("loop", "loop T 2 h/n/35 k/" + ".".join(str(ord(c)) for c in "on_empty_task") + "/67 tn,n,3"),
     ("loop", "loop F 2 h/n/35 k/" + ".".join(str(ord(c)) for c in "on_empty_task") + "/67 tn,n,3"),
     ("loop", "loop F 1 c/35 t3,9999,3"),
+    ("lspec", "lspec F 1 c/35 t3,9999,3"),
+    ("loop", "loop F 3 c/35 r/9999/67 k/" + ".".join(str(ord(c)) for c in "on_unknown_9999") + "/99 t9999,0,9999,4294967295"),
+    ("gh", "gh 2 c/35 a/" + ".".join(str(ord(c)) for c in "on_unknown_-2") + "/67 t-2,0,-1,-2"),
     ("run", None),
 ]
 
@@ -397,7 +394,7 @@ def gen(tier, rng, shard, nshards):
     # every member value once: the generated name table against the real lookup
     for v in VALID + [0, -1, 103, 1 << 32]:
         if mine():
-            nm = on_name(v) if v in VALID else "on_x"
+            nm = on_name(v) if v in VALID else f"on_unknown_{v}"
             yield "gh", f"gh 2 k/{name_tok(nm)}/{(abs(v) % 5000) * 32 + 3} c/{9000 * 32 + 3} t{v},{v}"
 
 
@@ -624,11 +621,7 @@ def impl(stream, line):
         outs = []
         sentinel = _Obj(999999, 0, trace)
         for t in [x for x in keys[1:].split(",") if x]:
-            try:
-                lst = cl.get_handlers(parse_key(t))
-            except ValueError:
-                outs.append("E")
-                continue
+            lst = cl.get_handlers(parse_key(t))
             o = show_ids(lst)
             if any(lst is v for v in cl.task_map.values()):
                 o = "!" + o  # the stored list object itself was handed out
@@ -673,10 +666,13 @@ def expected_registry(regs):
 
 
 def expected_handlers(reg, attr, k):
-    """handler codes a task with command k goes to; None when k is not a BeaconCommand value"""
-    if k is not None and k not in VALID:
-        return None
-    name = "on_empty_task" if k is None else on_name(k)
+    """handler codes a task with command k goes to (k: None, a BeaconCommand value, or any other int)"""
+    if k is None:
+        name = "on_empty_task"
+    elif k in VALID:
+        name = on_name(k)
+    else:
+        name = "on_unknown_" + str(k)
     hs = list(reg.get(k, [])) + attr(name)
     if not hs:
         hs = list(reg.get(-1, [])) + attr("on_catch_all")
@@ -688,24 +684,19 @@ def expected_dispatch(silent, regs, tasks):
     reg, attr, view = expected_registry(regs)
     ev = []
     outcome = "end"
-    unknown = False
     for t in [x for x in tasks[1:].split(",") if x]:
         k = parse_key(t)
         if k is None and not silent:
             ev.append("z")
             continue
         hs = expected_handlers(reg, attr, k)
-        if hs is None:
-            outcome = "exc:ValueError"
-            unknown = True
-            break
         for c in hs:
             if c & 1:
                 ev.append(f"c{c // 32}")
                 if not (c & 4) and (c & 8):
                     ev.append(f"s{c // 32}")
         ev.append("z")
-    return ",".join(ev) or "-", outcome, view, unknown
+    return ",".join(ev) or "-", outcome, view
 
 
 def oracle(stream, line, out):
@@ -766,9 +757,7 @@ def oracle(stream, line, out):
         return ok
     if stream in ("loop", "lspec"):
         regs, tasks = split_regs(w[2:])
-        ev, outcome, view, unknown = expected_dispatch(w[1] == "T", regs, tasks)
-        if unknown and _UNK_ACTIVE:
-            return False
+        ev, outcome, view = expected_dispatch(w[1] == "T", regs, tasks)
         f = out.split()
         if out.startswith("exc "):
             return False
@@ -785,7 +774,7 @@ def oracle(stream, line, out):
         exp = []
         for t in [x for x in keys[1:].split(",") if x]:
             hs = expected_handlers(reg, attr, parse_key(t))
-            exp.append("E" if hs is None else (".".join(str(c // 32) for c in hs) or "~"))
+            exp.append(".".join(str(c // 32) for c in hs) or "~")
         return f[0] == (",".join(exp) or "-") and f[2] == view
     return None
 
@@ -810,15 +799,6 @@ def nontrivial(stream, line, out):
     if stream == "gh":
         return any(ch.isdigit() for ch in out.split()[0])
     return True
-
-
-def known(stream, line, known_list):
-    if stream in ("loop", "lspec") and any(k.get("id") == UNKNOWN_CMD_FINDING for k in known_list):
-        w = line.split()
-        regs, tasks = split_regs(w[2:])
-        if expected_dispatch(w[1] == "T", regs, tasks)[3]:
-            return UNKNOWN_CMD_FINDING
-    return None
 
 
 def shrink(stream, line):
